@@ -80,10 +80,15 @@ def run(L, rep, tier, seed):
         data += offending_head(ctx, cls)
         data += K(b'GET /after HTTP/1.1\r\nHost: c\r\n\r\n')
         cv = Conv(S, ctx, data, end='eof')
-        sc = lambda m: {'kind': 'conversation', 'class': cls, 'position': pos, 'text': model_bytes(m, data).decode('latin1')}
+        pred = {}
+        sc = lambda m: dict({'kind': 'conversation', 'class': cls, 'position': pos, 'text': model_bytes(m, data).decode('latin1'),
+                             'mode': 'hold_first' if pos == 1 else 'respond_all'}, **({'predicted': dict(pred)} if pred else {}))
         reqs = drive(cv, hold=lambda i, rq: (pos == 1 and i == 0))
         urls = [r['url'].concrete() for r in reqs]
         ctx.event('witness', cls)
+        pred['urls'] = [u.decode('latin1') if u is not None else None for u in urls]
+        if cv.blocked is None:
+            pred['codes'] = [r.get('status') for r in (cv.responses() or [])]
         want_code = EXPECT[cls]
         delivered_bad = any(u not in (b'/first', b'/after') for u in urls)
         ctx.check_always(z3.BoolVal(not delivered_bad), cls + '/not-delivered', sc)
